@@ -118,7 +118,7 @@ CHECKS["C11"] = {
 
 
 CHECKS["C01"] = {
-    "explanation": "Symbolic execution of the snapshot/responder/flush pipeline (State.PushResponder, popResponders, flushResponses, targetedExists/expunge/fetch.handle, ExistsStateUpdate.Apply, snapshot and snapMsgList mutation, FlagSet operations, response.Merge) on a directly constructed State: symbolic initial view (ascending UIDs, symbolic flag sets), symbolic history of queued adds/removals/flag changes and flushes with and without expunge permission; a client mirror is rebuilt only from the returned untagged responses and compared with the snapshot at every probe.",
+    "explanation": "Symbolic execution of the snapshot/responder/flush pipeline (State.PushResponder, popResponders, flushResponses, targetedExists/expunge/fetch.handle, ExistsStateUpdate.Apply, snapshot and snapMsgList mutation, FlagSet operations, response.Merge) on a directly constructed State with a symbolic initial view and a symbolic history of queued adds/removals/flag changes and flushes; of whole observer commands through the real Mailbox API (state level) and through the real Session.handleCommand -> handleStore/handleFetch/handleExpunge/handleNoop/handleCheck with a second session of the same user acting through its own handlers and queued updates delivered at symbolic points; and of the IDLE bulk sender with symbolic timer ticks.  A client mirror is rebuilt only from the untagged responses (plus the client's own computation after a .SILENT store) and compared with the snapshot after every command and with a fresh session at quiescence.",
     "harnesses": [
         {"name": "pipeline", "pkg": "internal/state", "pkgname": "state", "entry": "VerifC01Pipeline",
          "files": ["zz_verif_c01.go", "zz_verif_fixture.go"], "extra_overlay": {"internal/response/zz_verif_decode.go": "internal/response/zz_verif_decode.go"},
@@ -140,7 +140,7 @@ CHECKS["C01"] = {
          "params": {"quick": [{}], "thorough": [{}]}, "cover": ["idle-bulk"]},
     ],
     "stubs": ["state.UserInterface -> verifUser (applies updates to the originating state immediately, queues for the others)", "db.Client/Transaction -> verifMiniDB (only ClearRecentFlagInMailboxOnMessage; any other call = stub missing)", "logrus -> no-op"],
-    "outside": ["wire rendering (String() via fmt)", "the goroutine forwarding idleCh to the socket", "concurrency between sessions (covered as arbitrary orders of queued responders)", "histories longer than k / views larger than n"],
+    "outside": ["wire rendering of individual responses (String() via fmt)", "the goroutine hand-over between IDLE's reader and sender (the sender's loop itself is the idlebulk harness)", "true concurrency between sessions (covered as arbitrary orders of queued updates/responders and arbitrary delivery points between commands)", "histories longer than k / views larger than n", "more than two sessions"],
     "assumptions": ["UIDs of added messages are unused and above the initial content; a session's own appends carry UIDs above everything queued before"],
 }
 
@@ -159,7 +159,7 @@ CHECKS["C05"] = {
          "cover": ["expunge-queued", "fetch-queued"]},
     ],
     "stubs": CHECKS["C01"]["stubs"],
-    "outside": ["the session-level command table (which commands flush with permitExpunge) - see DESIGN", "the [EXPUNGEISSUED] response code rendering"],
+    "outside": ["the [EXPUNGEISSUED] response code rendering (that the handlers put the item into their OK is part of C01's session harness)", "histories longer than k"],
     "assumptions": CHECKS["C01"]["assumptions"],
 }
 
@@ -223,7 +223,7 @@ CHECKS["C02"] = {
          "cover": ["own-store", "update-delivered"]},
     ],
     "stubs": ["internal/verifdb relational model", "state.Connector stub (no remote updates)", "state.UserInterface stub: FIFO, loss-free per-state update queue (async.QueuedChannel is goroutine based: outside)"],
-    "outside": ["the goroutine-backed queue between writer and session", "histories longer than k events", "more than two sessions"],
+    "outside": ["the goroutine-backed queue between writer and session (modelled as the FIFO, loss-free pipe it is specified to be; the native replay runs the real one)", "histories longer than k events", "more than two sessions"],
     "assumptions": ["updates are delivered to a state in the order they were queued, none is lost"],
 }
 
@@ -245,7 +245,7 @@ CHECKS["C20"] = {
          "params": {"quick": [{}], "thorough": [{}]}, "cover": []},
     ],
     "stubs": ["state.Connector stub: CreateMessage/AddMessagesToMailbox/... fail on a symbolic schedule (size error or other)", "store.Store stub (map)", "crypto/sha256 -> injective stub (collision freedom assumed)", "internal/verifdb relational model"],
-    "outside": ["LIST visibility of the recovery mailbox (pattern matching goes through regexp)", "header normalisation inside GetMessageHash beyond the two concrete literals", "copy/move out of the recovery mailbox (thorough tier, see DESIGN)"],
+    "outside": ["header normalisation inside GetMessageHash beyond the four concrete literals", "histories longer than k", "LSUB"],
     "assumptions": ["SHA-256 is collision free"],
 }
 
@@ -265,7 +265,7 @@ CHECKS["C14"] = {
          "with": ["backend_export", "state_export", "verifdb"], "params": {"quick": [{}], "thorough": [{}]}, "cover": ["decoded"]},
     ],
     "stubs": ["internal/verifdb relational model (UNIQUE name / remote id)", "state.Connector stub: CreateMailbox returns a fresh remote id"],
-    "outside": ["LIST/LSUB wildcard matching: match() compiles the pattern to a regexp and runs the std regexp engine - not encodable within reach, so 'LIST returns exactly the names RFC 3501 selects' is not decided", "modified UTF-7 names", "connector-side mailbox updates (see C06)"],
+    "outside": ["the regexp engine itself (match() compiles the pattern to a regexp: on the concrete names and patterns of the list harness it is delegated to the Go library the engine is linked with)", "LSUB with deleted-but-subscribed names", "modified UTF-7 names beyond ASCII", "connector-side mailbox updates (see C06)"],
     "assumptions": [],
 }
 
@@ -387,6 +387,6 @@ CHECKS["C18"] = {
          "params": {"quick": [{}], "thorough": [{}]}, "cover": ["after-close"]},
     ],
     "stubs": ["connector.Connector stub (Authorize returns a chosen answer)", "time.AfterFunc -> recorded, never fired", "sync.WaitGroup / Mutex -> single-goroutine model (Wait on a non-zero group = BLOCKED)", "profiling / observability / reporter / logrus -> no-op"],
-    "outside": ["'each user has its own database, store and connector' is object wiring, not a computation", "real time (that the jail lasts exactly loginJailTime)", "commands after CLOSE/UNSELECT in a full session (the state without snapshot is the same protocol state)"],
+    "outside": ["'each user has its own database, store and connector' is object wiring, not a computation (the login harness checks that the session is bound to the matching user's object)", "real time (that the jail lasts exactly loginJailTime)", "non-ASCII credential bytes"],
     "assumptions": [],
 }
